@@ -646,6 +646,71 @@ def r7(ctx, r):
              okdesc="TransportConfig::closeOnBackpressure defaults to true")
 
 
+def r8(ctx, r):
+    """Sockets are edge-triggered: an event returned by epoll_wait is reported once.  In batched mode the events of one
+    epoll_wait pass through EventBatchProcessor::processBatch — each must reach the special handler or the general handler,
+    none may be dropped between collection and dispatch (a dropped EPOLLOUT strands a queued tail, a dropped EPOLLIN strands
+    bytes the peer wrote, with the session open)."""
+    fb = ctx.fb()
+    EB = "iora::network::EventBatchProcessor"
+    fs = [f for f in fb.funcs(EB + "::processBatch") if f.ok]
+    if not fs:
+        raise AnalysisBroken("EventBatchProcessor::processBatch not found")
+    f = fs[0]
+    params = {p_["n"]: p_ for p_ in f.params}
+    gen = [n for n, p_ in params.items() if "EventHandler" in p_["t"] or n.lower().startswith("general")]
+    spec = [n for n in params if n.lower().startswith("special")]
+    if len(gen) != 1 or len(spec) != 1:
+        raise AnalysisBroken("processBatch: general/special handler parameters not identified (%s)" % sorted(params))
+
+    def calls_of(name):
+        out = []
+        for e in f.stmts():
+            n = e.node
+            if n.get("k") == "opcall" and n.get("op") == "()" and strip_casts(n["args"][0]).get("n") == name:
+                out.append(e)
+            if n.get("k") == "call" and strip_casts(n.get("fn") or {}).get("n") == name:
+                out.append(e)
+        return out
+    gcalls, scalls = calls_of(gen[0]), calls_of(spec[0])
+    if not gcalls or not scalls:
+        raise AnalysisBroken("processBatch: handler invocations not found (%d general, %d special)" % (len(gcalls), len(scalls)))
+    # the staging container: local vector filled in the collection loop and iterated by the dispatch loop
+    fills = [e for e in f.stmts() if e.node.get("k") == "mcall" and last(e.node.get("callee", "")) in ("emplace_back", "push_back") and strip_casts(e.node.get("obj") or {}).get("k") == "var"
+             and "vector" in (strip_casts(e.node["obj"]).get("t") or "")]
+    r.instance()
+    if not fills:
+        # direct dispatch inside the collection loop: every iteration reaches one of the handlers
+        raise AnalysisBroken("processBatch: no staging vector — a dispatch form this rule does not know")
+    V = strip_casts(fills[0].node["obj"])
+    # (a) in the collection loop an event not taken by the special handler is always staged
+    for sc in scalls:
+        r.instance()
+        loops = [b for b in f.blocks.values() if b.term and b.term.get("k") in ("ForStmt", "WhileStmt", "CXXForRangeStmt") and b.cond is not None]
+        w = search(f, sc, lambda x: x.kind == "stmt" and x.node.get("k") in ("un", "opcall") and x.node.get("op") in ("++", "pre++", "post++"), stop=lambda x: x in fills, eh=False,
+                   edge_ok=lambda b, si, sc=sc: not (b.cond is not None and any(x.get("id") == sc.node.get("id") for x in walk(b.cond)) and si == 0))
+        r.expect(w is None, f, sc, "event neither special nor staged", "an event the special handler declined can reach the next loop iteration without being staged for the general handler (%s)" % witness_str(f, w),
+                 okdesc="declined events are always staged")
+    # (b) nothing removes staged events before they are dispatched
+    for e in f.stmts():
+        n = e.node
+        if n.get("k") == "mcall" and strip_casts(n.get("obj") or {}).get("d") == V.get("d") and last(n.get("callee", "")) in ("clear", "erase", "pop_back", "resize", "swap", "assign", "shrink_to_fit"):
+            r.instance()
+            r.fail(f, e, "staged events discarded", "processBatch calls %s.%s() between collecting the batch and dispatching it: the socket events in it are dropped — with edge-triggered polling they are never reported "
+                   "again, so a queued tail is never written / bytes the peer wrote are never read while the session stays open" % (V.get("n"), last(n["callee"])))
+        if n.get("k") in ("opcall", "bin") and n.get("op") == "=" and strip_casts(n["args"][0] if n.get("k") == "opcall" else n["lhs"]).get("d") == V.get("d"):
+            r.instance()
+            r.fail(f, e, "staged events discarded", "processBatch overwrites %s between collection and dispatch" % V.get("n"))
+    # (c) the dispatch loop hands every staged element to the general handler: the call is on every path of the loop body
+    for gc in gcalls:
+        r.instance()
+        lb = [b for b in f.blocks.values() if b.term and b.term.get("k") == "CXXForRangeStmt" and b.cond is not None and search(f, ("block", b.succs[0]), lambda x, gc=gc: x is gc, stop=lambda x, b=b: x.block is b, eh=False) is not None]
+        if not lb:
+            raise AnalysisBroken("processBatch: dispatch loop not identified")
+        w = search(f, ("block", lb[0].succs[0]), lambda x, b=lb[0]: x.block is b, stop=lambda x, gc=gc: x is gc, eh=False)
+        r.expect(w is None, f, gc, "staged event skipped", "the dispatch loop can pass over a staged event without calling the general handler (%s)" % witness_str(f, w), okdesc="every staged event reaches the general handler")
+
+
 def run(ctx, ck):
     ck.run_rule("C01-R1", "only doSend/writePending write to a session's descriptor or SSL object", "A3 who-may-call", lambda r: r1(ctx, r))
     ck.run_rule("C01-R2", "accepted order = command-queue order = wire order", "A1 + A5 + A10", lambda r: r2(ctx, r))
@@ -653,4 +718,5 @@ def run(ctx, ck):
     ck.run_rule("C01-R4", "every path that leaves data queued re-arms EPOLLOUT", "A2 must-pass + A5", lambda r: r4(ctx, r))
     ck.run_rule("C01-R5", "no plaintext write on a TLS session; SSL_write only when established", "A5 with checked session invariant", lambda r: r5(ctx, r))
     ck.run_rule("C01-R6", "the read loop delivers every positive read and drains until would-block", "A2 + A5", lambda r: r6(ctx, r))
+    ck.run_rule("C01-R8", "batched mode: every event of an epoll batch reaches a handler exactly once", "A2 must-pass + who-may-mutate the staging vector", lambda r: r8(ctx, r))
     ck.run_rule("C01-R7", "queued data is dropped only when closeOnBackpressure is off (default on)", "A5 + A10", lambda r: r7(ctx, r))
